@@ -36,6 +36,7 @@ func TestC11(t *testing.T) {
 			if lab.Pct(t, 25, "fault") {
 				c.FaultAt = lab.Rng(t, 1, 12, "faultAt")
 			}
+			c.NeedsRecovery = lab.Pct(t, 20, "needsRecovery")
 			return c
 		},
 		Check: func(c lab.StoreCase) (res vprop.Result) {
